@@ -32,7 +32,7 @@ type Obligation struct {
 	At      int
 	Reach   string
 	Goal    string
-	Pos     string // source position (informational)
+	Pos     string   // source position (informational)
 	Values  []string // terms worth reporting from a model (inputs)
 	Vacuity bool     // true: expected NOT to be unsat (assert false probe)
 	// results
@@ -49,34 +49,34 @@ type Obligation struct {
 // VC collects declarations, commands and obligations for one verification unit
 // (one function body under contract, or one lemma).
 type VC struct {
-	P        *Program
-	Unit     string
-	declSeen map[string]bool
-	decls    []string
-	cmds     []string
-	cmdDef   map[int]bool // indices of definitional axioms of pure functions (droppable)
-	cmdAlt   map[int]string // alternative text of a command in the 'inlined' rendering
-	obls     []*Obligation
-	ctr      int
-	kindCtr  map[string]int
-	abstracted map[string]bool
-	assumedStd map[string]bool
-	pureUsed   map[string]bool
-	pureFns    map[*ssa.Function]bool
+	P             *Program
+	Unit          string
+	declSeen      map[string]bool
+	decls         []string
+	cmds          []string
+	cmdDef        map[int]int    // droppable facts: 1 = definitional equality of a pure application, 2 = other axiom instance (sqrt)
+	cmdAlt        map[int]string // alternative text of a command in the 'inlined' rendering
+	obls          []*Obligation
+	ctr           int
+	kindCtr       map[string]int
+	abstracted    map[string]bool
+	assumedStd    map[string]bool
+	pureUsed      map[string]bool
+	pureFns       map[*ssa.Function]bool
 	pureHeapDep   map[*ssa.Function]bool
 	pureHeapIndep map[*ssa.Function]bool
-	heapReads  int
-	notes      []string
-	structName map[string]string // types key -> datatype name
-	heapNames  map[string]Sort   // heap array name -> sort
-	heapOrder  []string
-	epochCtr   int
-	capStack   []*captureBuf
+	heapReads     int
+	notes         []string
+	structName    map[string]string // types key -> datatype name
+	heapNames     map[string]Sort   // heap array name -> sort
+	heapOrder     []string
+	epochCtr      int
+	capStack      []*captureBuf
 }
 
 func newVC(p *Program, unit string) *VC {
 	vc := &VC{P: p, Unit: unit,
-		declSeen: map[string]bool{}, kindCtr: map[string]int{}, cmdDef: map[int]bool{}, cmdAlt: map[int]string{},
+		declSeen: map[string]bool{}, kindCtr: map[string]int{}, cmdDef: map[int]int{}, cmdAlt: map[int]string{},
 		abstracted: map[string]bool{}, assumedStd: map[string]bool{}, pureUsed: map[string]bool{}, pureFns: map[*ssa.Function]bool{}, pureHeapDep: map[*ssa.Function]bool{}, pureHeapIndep: map[*ssa.Function]bool{},
 		structName: map[string]string{}, heapNames: map[string]Sort{}}
 	vc.decl("Slice", "(declare-datatypes ((Slice 0)) (((mk_slice (s_arr Int) (s_off Int) (s_len Int) (s_cap Int)))))")
@@ -132,6 +132,17 @@ func (vc *VC) define(base string, s Sort, body string) string {
 		return n
 	}
 	vc.emit(fmt.Sprintf("(define-fun %s () %s %s)", n, s, body))
+	return n
+}
+
+// nameConst names a term by a declared constant (usable inside quantifier patterns, unlike a macro).
+func (vc *VC) nameConst(base string, s Sort, body string) string {
+	if len(vc.capStack) > 0 {
+		return vc.define(base, s, body)
+	}
+	n := vc.fresh(base)
+	vc.emit(fmt.Sprintf("(declare-const %s %s)", n, s))
+	vc.emit(fmt.Sprintf("(assert (= %s %s))", n, body))
 	return n
 }
 
@@ -649,7 +660,13 @@ func (vc *VC) regHeap(n string, s Sort) {
 // assumeDef records the definitional equality of a pure-function application (may be dropped by a
 // racing solver instance: fewer assumptions is always sound for an unsat answer).
 func (vc *VC) assumeDef(fact string) {
-	vc.cmdDef[len(vc.cmds)] = true
+	vc.cmdDef[len(vc.cmds)] = 1
+	vc.emit(fmt.Sprintf("(assert %s)", fact))
+}
+
+// assumeAxiomInstance: an instance of a library axiom (sqrt); dropped only by the "opaque" racer.
+func (vc *VC) assumeAxiomInstance(fact string) {
+	vc.cmdDef[len(vc.cmds)] = 2
 	vc.emit(fmt.Sprintf("(assert %s)", fact))
 }
 
@@ -662,7 +679,9 @@ func (vc *VC) hasDefs(o *Obligation) bool {
 	return false
 }
 
-func (vc *VC) render(o *Obligation, wantModel bool) string { return vc.renderOpt(o, wantModel, renderFull) }
+func (vc *VC) render(o *Obligation, wantModel bool) string {
+	return vc.renderOpt(o, wantModel, renderFull)
+}
 
 const (
 	renderFull    = 0 // pure calls are applications, definitional equalities asserted
@@ -679,8 +698,10 @@ func (vc *VC) renderOpt(o *Obligation, wantModel bool, mode int) string {
 		b.WriteByte('\n')
 	}
 	for i, c := range vc.cmds[:o.At] {
-		if dropDefs && vc.cmdDef[i] {
-			continue
+		if k := vc.cmdDef[i]; k != 0 && dropDefs {
+			if mode == renderOpaque || k == 1 {
+				continue
+			}
 		}
 		if mode == renderInlined {
 			if alt, ok := vc.cmdAlt[i]; ok {
